@@ -229,7 +229,11 @@ def _shard(shard, seed, tier, n_cases):
                             docs.documents(extras=False, deny_rich=True), st.sampled_from([None, False, True])),
         "spelling": st.integers(0, 2),
         "rotate": st.sampled_from([0, 0, 3, 7, 11]),
-        "ops": st.lists(engine.weighted([(3, near), (2, prog)]), min_size=8, max_size=30),
+        "ops": st.lists(engine.weighted([
+            (6, near), (4, prog), (2, st.tuples(st.just("d"), engine.BIG, engine.SIDE, engine.KS)),
+            (2, st.tuples(st.just("s"), st.integers(0, 23), engine.BIG, engine.SIDE, engine.KS)),
+            (2, st.tuples(st.just("g"), st.integers(0, 23), engine.BIG, engine.SIDE, engine.KS)),
+            (1, st.just(("x",))), (1, st.tuples(st.just("v"), st.integers(0, 59)))]), min_size=8, max_size=40),
         "modes": st.just({}),
     })
     engine.drive(_Runner(rep), strat, n_cases, seed)
